@@ -18,6 +18,8 @@ ASSUMPTIONS = {
     'A-otel': 'tracing-opentelemetry bridge functions used for trace-context extraction',
     'A-verifiers': 'soundness of Verus/Z3 and Kani/CBMC; Verus exec arithmetic is machine arithmetic with overflow obligations, spec arithmetic is mathematical',
     'A-clock': 'Instant is monotone',
+    'A-arc': 'Arc/Weak: strong_count is the number of live holders; upgrade succeeds iff one is alive; a fresh Arc has count 1 (prelude/arc_world.rs)',
+    'A-rand': 'rand::thread_rng / SpanId::random return an arbitrary value (no property of the value is used)',
 }
 
 # Verus units: name -> python module providing unit()
@@ -26,6 +28,8 @@ VERUS_UNITS = {
     'client': 'contracts.client',
     'server_table': 'contracts.server_table',
     'server': 'contracts.server',
+    'trace_ctx': 'contracts.trace_ctx',
+    'channels': 'contracts.channels',
 }
 
 PROPS = {}
@@ -104,7 +108,7 @@ prop('C15', title='Shipped transports deliver messages intact and in order',
      technique='Kani: loop-free full-domain harnesses on the real error-kind table and 128-bit id codec functions (complete proofs, not bounded)',
      level_text='Proof by CBMC over the full input domain of tarpc\'s own wire tables (error kinds both directions incl. the primitive type written); the framing/codec layers are dependency code and enter as assumptions.',
      level_note='Only tarpc-owned encoding functions are under contract.',
-     kani=['k1_errorkind_written_as_u32_code', 'k1_errorkind_read_total_and_table', 'k1_errorkind_round_trip'],
+     kani=['k1_errorkind_written_as_u32_code', 'k1_errorkind_read_total_and_table', 'k1_errorkind_round_trip', 'k1_u128_round_trip_le_bytes'],
      assumptions=['A-codec', 'A-verifiers'],
      not_covered='length-delimited framing under fragmentation, serde-derived schemas, FIFO of the tokio/futures queues and end-of-stream signalling are dependency code (A-codec, A-mpsc): not claimed')
 
@@ -122,8 +126,8 @@ prop('C16', SERVER_TOO, title='No peer-supplied input can crash an endpoint',
      level_note='Malformed frames are the codec\'s (dependency); the rpc.deadline span field rendering is not yet under contract.',
      not_covered='rpc.deadline tracing field arithmetic (R12), server table (unit server)')
 prop('C18', SERVER_TOO, title='Trace context follows the request, and only that request',
-     verus=['client'], technique=TECH_V,
-     assumptions=COMMON_V + ['A-otel', 'A-sink'],
+     verus=['client', 'trace_ctx'], kani=['k6_otel_id_conversions_round_trip'], technique=TECH_V,
+     assumptions=COMMON_V + ['A-otel', 'A-sink', 'A-rand'],
      level_text='Proof that the Request written carries exactly the context stored in the table under its id, and that the Cancel for an id carries the trace context stored for that id (same trace id, sampling and span id); contexts live in the entry of their own id (frame clauses), so concurrent requests cannot exchange them.',
      level_note='Child-context derivation (new_child, server start_request) is in K6/unit server when registered.',
      not_covered='OpenTelemetry bridge')
@@ -167,3 +171,10 @@ prop('C20', title='Load-balancing and retry stubs keep their dispatch promises',
      level_note='Retry::call is only checked by a bounded native stand-in (Kani ICE on tracing::trace!, Verus cannot take async trait fns): not counted as proved. The fairness corollary (per-backend counts differ by at most one over consecutive counters) is arithmetic on counter % len and is not machine-checked here.',
      bounded=['backend count dimension enumerated (cycle 1..=4, consistent hash 1..=3, round robin 3)'],
      not_covered='fairness corollary as a checked lemma; Retry beyond 5 attempts')
+
+prop('C13', title='Per-key channel limit is never exceeded nor over-applied',
+     verus=['channels'], technique=TECH_V + '; Arc/Weak strong counts modelled by a threaded ghost world',
+     assumptions=COMMON_V + ['A-arc', 'A-mpsc'],
+     level_text='Proof of a data-structure invariant over (key_counts, ghost world of live trackers): every tracker that still has a live yielded channel is the one recorded for its key and holds at most n channels; an entry is forgotten only when its tracker is dead. Every function of the filter (admission, close-notification processing incl. stale ones, the poll loop) preserves it; a lemma shows it is stable under channels being dropped by the environment at any time; admission is refused only if n channels of that key are alive at that moment.',
+     level_note='Function-level atomicity w.r.t. channel drops inside increment_channels_for_key (between strong_count and upgrade) is assumed; key type instantiated with u64.',
+     not_covered='a drop racing inside increment_channels_for_key; TrackedChannel forwarding methods')
